@@ -423,4 +423,85 @@ theorem add_map {α β : Type} (f : α → β) (cap : Int) (q : EQ α) (v : α) 
 
 
 
+
+/-- the operations that touch only by-value fields -/
+def isBaseOp : Op → Bool
+  | .setAttrs _ | .setStatus _ _ | .setName _ | .end_ => true
+  | _ => false
+
+theorem view_base_step (lim : Limits) (h : Heap) (s : RSpan) (op : Op) (hb : isBaseOp op = true) :
+    view h { s with base := C04.step lim s.base op } = C04.step lim (view h s) op := by
+  cases op with
+  | setAttrs kvs =>
+    simp only [C04.step, view]
+    by_cases h1 : kvs.isEmpty = true
+    · simp [h1]
+    · by_cases h2 : s.base.ended = true <;> simp [h1, h2]
+  | setStatus c d => simp only [C04.step, view]; by_cases h2 : s.base.ended = true <;> simp [h2]
+  | setName n => simp only [C04.step, view]; by_cases h2 : s.base.ended = true <;> simp [h2]
+  | end_ => simp only [C04.step, view]; by_cases h2 : s.base.ended = true <;> simp [h2]
+  | addEvent _ _ => simp [isBaseOp] at hb
+  | addLink _ _ => simp [isBaseOp] at hb
+  | recordError _ _ => simp [isBaseOp] at hb
+
+
+/-- allocations do not change what a reader of a span sees -/
+theorem view_append (h xs : Heap) (bufs : List Slice) (s : RSpan) (hk : SpanOK h bufs s) : view (h ++ xs) s = view h s := by
+  simp only [view]
+  have hE : ∀ e ∈ s.events.queue, derefE (h ++ xs) e = derefE h e := fun e he => by
+    simp only [derefE]; rw [read_append _ _ _ (evOK_readable _ _ _ (hk.ev e he))]
+  have hL : ∀ l ∈ s.links.queue, derefL (h ++ xs) l = derefL h l := fun l hl => by
+    simp only [derefL]; rw [read_append _ _ _ (evOK_readable _ _ _ (hk.ln l hl))]
+  rw [List.map_congr_left hE, List.map_congr_left hL]
+
+/-- recordingSpan.addEvent on a recording span, at any heap: the new event holds the options' values as they are now -/
+theorem addEvent_view (lim : Limits) (h : Heap) (bufs : List Slice) (s : RSpan) (name : Bytes) (opts : List Slice)
+    (ho : ∀ o ∈ opts, readable h o) (hk : SpanOK h bufs s) :
+    view (addEvent applyEvent lim h s name opts).1 (addEvent applyEvent lim h s name opts).2 =
+      { view h s with events := (view h s).events.add lim.eventCount (mkEvent lim name (opts.flatMap (read h))) } := by
+  have hc := newEventConfig_copies h opts ho
+  obtain ⟨xs, hxs⟩ := hc.ext
+  have hcap := capSlice_read (newEventConfig applyEvent h opts).1 lim.perEvent
+    (newEventConfig applyEvent h opts).2 (by rw [hc.val]; exact hc.vlen)
+  rw [hc.val] at hcap
+  have hv := view_append h xs bufs s hk
+  rw [← hxs] at hv
+  simp only [view] at hv
+  simp only [addEvent, view]
+  rw [add_map (derefE (newEventConfig applyEvent h opts).1)]
+  have h1 := congrArg C04.St.events hv
+  have h2 := congrArg C04.St.links hv
+  simp only at h1 h2
+  rw [h1, h2]
+  simp only [derefE, mkEvent, hcap.1, hcap.2]
+
+/-- `slices.Clone` after the per-link cap, on the view -/
+theorem addLink_view (lim : Limits) (h : Heap) (bufs : List Slice) (s : RSpan) (sc : SC) (attrs : Slice)
+    (hb : ∀ b ∈ bufs, b.arr < h.length) (hk : SpanOK h bufs s) (hlen : (read h attrs).length = attrs.len) :
+    view (addLink cloneLink lim h s sc attrs).1 (addLink cloneLink lim h s sc attrs).2 =
+      C04.step lim (view h s) (.addLink sc (read h attrs)) := by
+  have hemp : (read h attrs).isEmpty = (attrs.len == 0) := by
+    rw [← hlen]; cases read h attrs <;> simp
+  unfold addLink
+  simp only [C04.step, hemp]
+  split
+  · rfl
+  · have hv : (view h s).ended = s.base.ended := rfl
+    rw [hv]
+    split
+    · rfl
+    · obtain ⟨⟨xs, hxs⟩, _, hrd⟩ := cloneLink_ok h bufs (capSlice lim.perLink attrs).1 hb
+      have hcap := capSlice_read h lim.perLink attrs hlen
+      have hvw := view_append h xs bufs s hk
+      rw [← hxs] at hvw
+      simp only [view] at hvw
+      simp only [view]
+      rw [add_map (derefL (cloneLink h (capSlice lim.perLink attrs).1).1)]
+      have h1 := congrArg C04.St.events hvw
+      have h2 := congrArg C04.St.links hvw
+      simp only at h1 h2
+      rw [h1, h2]
+      simp only [derefL, mkLink, hrd, hcap.1, hcap.2]
+
+
 end Otel.C10.Alias
